@@ -101,6 +101,7 @@ func flagPassed(name string) bool {
 
 func run(property, tier, repo, verif string, seed int, overlay map[string][]byte, fn func(*Ctx)) (code int) {
 	t0 := time.Now()
+	verifDirForNormalize = verif
 	p, err := LoadProg(repo, overlay)
 	if err != nil {
 		// A tree that cannot be loaded cannot be shown to satisfy anything.
